@@ -416,6 +416,56 @@ pub fn run(run: &mut Run) {
         }
         check_graph_roots(l, &m, &roots);
     });
+    // girth() under concurrency: if the search over the roots is ever run in parallel, a slow search with a
+    // large local girth must not overwrite the short cycle found by a fast one. Witness shape: sixteen columns
+    // on a long cycle, each dragging thousands of pendant rows (slow searches), and a 4-cycle among later columns.
+    if !cfg!(miri) {
+        let reps = run.tier.n(6, 60);
+        run.sub_seq("girth-in-thread-pools", reps, |l, idx, rng| {
+            let ring = 16usize;
+            let pend = rng.range(1500, 4000);
+            let extra = rng.range(20, 60);
+            let rows = ring + ring * pend + 2;
+            let cols = ring + 2 + extra;
+            let mut e: Vec<(usize, usize)> = Vec::new();
+            for c in 0..ring {
+                e.push((c, c));
+                e.push(((c + 1) % ring, c));
+                for p in 0..pend {
+                    e.push((ring + c * pend + p, c));
+                }
+            }
+            let (ra, rb) = (rows - 2, rows - 1);
+            let c4 = ring + rng.below(extra);
+            e.extend([(ra, c4), (rb, c4), (ra, c4 + 1), (rb, c4 + 1)]);
+            let m = Mat::new(rows, cols, e, "ring-with-pendants-plus-4cycle");
+            let h = m.to_sparse();
+            let threads = [2usize, 4, 16][(idx % 3) as usize];
+            let pool = rayon::ThreadPoolBuilder::new().num_threads(threads).build().expect("pool");
+            for _ in 0..4 {
+                l.eval();
+                let got = guard(|| pool.install(|| (h.girth(), h.girth_with_max(6), h.girth_with_max(40))));
+                match got {
+                    Ok((g, g6, g40)) => {
+                        if g != Some(4) || g6 != Some(4) || g40 != Some(4) {
+                            l.violation(
+                                "girth()/girth_with_max() wrong on a large disconnected graph when called inside a thread pool",
+                                J::obj().set("rows", rows).set("cols", cols).set("threads", threads).set("girth", g).set("girth_with_max_6", g6).set("girth_with_max_40", g40).set("expected", 4),
+                            );
+                            return;
+                        }
+                    }
+                    Err(p) => {
+                        l.violation(format!("girth() panicked: {}", panic_class(&p)), J::obj().set("rows", rows).set("cols", cols));
+                        return;
+                    }
+                }
+            }
+            let mut d = Dig::new();
+            d.s("pool").u(idx).u(pend as u64);
+            l.nt(d.get());
+        });
+    }
     run.sub_seq("directed", 1, |l, _idx, rng| {
         // the witness of the repaired defect: 4-cycle plus pendant path
         let m = Mat::new(3, 3, vec![(0, 0), (0, 1), (1, 0), (1, 1), (2, 1), (2, 2)], "directed-4cycle-pendant");
